@@ -156,6 +156,14 @@ theorem WSat.trivial {β} (x : M (Except ZErr β × WState)) (fa : Option Nat) (
   unfold WSat
   split <;> trivial
 
+/-- only the fault-free run of the action matters -/
+theorem WSat.of_run_eq {β} {x y : M (Except ZErr β × WState)} {d : Dev}
+    {Q : Except ZErr β × WState → Dev → Prop} (h : x none d = y none d) (hy : WSat y none d Q) :
+    WSat x none d Q := by
+  unfold WSat at *
+  rw [h]
+  exact hy
+
 attribute [irreducible] WSat
 
 theorem WSat.emit_none {β} {s : WState} {enc : Option EncState} {bs : Bytes}
@@ -165,6 +173,12 @@ theorem WSat.emit_none {β} {s : WState} {enc : Option EncState} {bs : Bytes}
   cases enc with
   | some e => exact hk _ d
   | none => exact WSat.io_none (MSat.writeAll bs none d) (fun _ d' _ => hk none d')
+
+/-- fault-free, `emitFinish` (M2) is `emit` -/
+theorem WSat.emitFinish_none {β} {s : WState} {m : Method} {enc : Option EncState} {bs : Bytes}
+    {k : Option EncState → M (Except ZErr β × WState)} {d} {Q : Except ZErr β × WState → Dev → Prop}
+    (hk : ∀ enc' d', WSat (k enc') none d' Q) : WSat (Model.emitFinish s m enc bs k) none d Q :=
+  WSat.of_run_eq (Model.emitFinish_none s m enc bs k d) (WSat.emit_none hk)
 
 theorem WSat.updateLocalHeader_none' {β} {s : WState} {file : FileData} {k : Unit → M (Except ZErr β × WState)}
     {d : Dev} {Q : Except ZErr β × WState → Dev → Prop}
